@@ -220,6 +220,19 @@ fn run(ctx: &Ctx, rep: &Report) {
                 }
             }
         }
+        // long name lists: all 41 names, more names than there are capabilities (repeats are legal),
+        // a hundred names
+        let all: Vec<&str> = names.iter().copied().collect();
+        for reps in [1usize, 2, 3] {
+            let list: Vec<&str> = all.iter().cycle().take(41 * reps - reps + 1).copied().collect();
+            texts.push(format!("{}=ep", list.join(",")));
+            texts.push(format!("{}+p cap_chown=e", list[..40.min(list.len())].join(",")));
+        }
+        for n in [40usize, 41, 42, 43, 64, 100] {
+            let list: Vec<&str> = all.iter().cycle().take(n).copied().collect();
+            texts.push(format!("{}=e", list.join(",")));
+            texts.push(format!("{},cap_bogus=e", list.join(",")));
+        }
         rep.count("name_table_texts", texts.len() as u64);
         rep.eval(texts.len() as u64);
         for t in &texts {
